@@ -5,13 +5,15 @@ HARNESSES = {
 
 def _runs(tier):
     if tier == "quick":
-        return [{"harness": "pip", "args": ["--mode", "fresh", "--rows", "2"], "budget": 50},
-                {"harness": "pip", "args": ["--mode", "incremental", "--depth", "2"], "budget": 60},
-                {"harness": "pip", "args": ["--mode", "fresh", "--rows", "3", "--maxdim", "3", "--no-big"], "budget": 60},
-                {"harness": "pip", "args": ["--mode", "boxed", "--layouts", "1", "--strategies", "3"], "budget": 60}]
+        return [{"harness": "pip", "args": ["--mode", "fresh", "--rows", "2"], "budget": 40},
+                {"harness": "pip", "args": ["--mode", "incremental", "--depth", "2"], "budget": 50},
+                {"harness": "pip", "args": ["--mode", "fresh", "--rows", "3", "--maxdim", "3", "--no-big"], "budget": 50},
+                {"harness": "pip", "args": ["--mode", "boxed", "--layouts", "1", "--strategies", "3"], "budget": 50},
+                {"harness": "pip", "args": ["--mode", "resolve", "--layouts", "1", "--strategies", "1"], "budget": 30}]
     return [{"harness": "pip", "args": ["--mode", "fresh", "--rows", "3"], "budget": 1200},
             {"harness": "pip", "args": ["--mode", "incremental", "--depth", "3"], "budget": 1300},
-            {"harness": "pip", "args": ["--mode", "boxed", "--layouts", "3", "--strategies", "6"], "budget": 600}]
+            {"harness": "pip", "args": ["--mode", "boxed", "--layouts", "3", "--strategies", "6"], "budget": 600},
+            {"harness": "pip", "args": ["--mode", "resolve", "--layouts", "3", "--strategies", "6"], "budget": 400}]
 
 CHECKS = {
     "C07": {"runs": _runs, "level": "model_checking", "deadline": {"quick": 270, "thorough": 2500},
@@ -20,6 +22,7 @@ CHECKS = {
                 "only valuations that satisfy the context rows are judged (the tree is unspecified elsewhere)",
                 "R.MILP lexicographic minimum (ref/milp.hh): vertex/ray window argument, self-tested against plain enumeration; the spanning code is self-tested on the class documentation's example",
                 "every solve runs under a CPU budget (0.05 s through abandon_expensive_computations, 1 s when re-run before a hang is reported); solves under PIVOT_ROW_STRATEGY_MAX_COLUMN run first in a forked child with a hard CPU limit (0.3 s, 3 s to confirm) because a loop without cancellation points was met there",
+                "re-solves of a tree in which a decision node declares artificial parameters run in a forked child: the unchanged library corrupts the heap there (open finding), and the damage must not reach later cases",
                 "states of the incremental exploration are merged on a 128-bit hash of the ascii_dump text within one (initial problem, first operation) shard",
             ]},
 }
